@@ -138,6 +138,10 @@ def differential(c, focus, n_hist, backends, cfgs, weights=None, lengths=(4, 22)
       owners, sids = ('o', 'p'), ('s',)
     elif i % 4 == 1:
       owners, sids = ('o',), ('s', 's1')      # one name a prefix of the other
+    elif i % 5 == 2:
+      # names are arbitrary strings without '/': surrounding or inner blanks, unicode, separators, case
+      owners = (c.rng.choice(['o', 'o ', ' o', 'Ö', 'o.p', 'o:p']),)
+      sids = (c.rng.choice(['lr sweep ', ' s', 's ', 'é', 's:1', 'a.b', 'S', 'x y', 'trials', '1']),)
     else:
       owners, sids = ('o',), ('s',)
     g = svcgen.Gen(c.rng, owners=owners, sids=sids,
